@@ -410,10 +410,11 @@ func checkApplySite(c *Ctx, s applySite) {
 	key := s.name + "→" + s.desc
 	fname := s.fn.Obj.Name()
 	// exemptions by role
-	switch fname {
-	case "loadAOF":
-		c.ok(key, s.disp.Pos(), false, "the log replayer: commands come from the log and are not logged again (R3.replay-path)")
+	if c.calledOnlyFrom("loadAOF")[s.fn.Obj] {
+		c.ok(key, s.disp.Pos(), false, "the log replayer (loadAOF or a helper only it calls): commands come from the log and are not logged again (R3.replay-path)")
 		return
+	}
+	switch fname {
 	case "luaTile38AtomicRO":
 		// licence checked by R15.write-gates: every write-class string returns errReadOnly before the dispatch
 		c.ok(key, s.disp.Pos(), false, "read-only script class: write-class commands are refused before the dispatch (R15.write-gates, R18.ro-effect-free)")
@@ -457,7 +458,7 @@ func checkApplySite(c *Ctx, s applySite) {
 	excused := func(b *cfg.Block, si int) (bool, string) {
 		for _, f := range fg.edgeFacts(b, si) {
 			if f.Tag != nil {
-				if !f.Neg && fname == "followHandleCommand" && isCommandCall(info, f.Tag) {
+				if !f.Neg && c.calledOnlyFrom("followHandleCommand")[s.fn.Obj] && isCommandCall(info, f.Tag) {
 					if v, ok := constString(info, f.E); ok && v == "publish" {
 						return true, "reviewed skip: followers do not log PUBLISH"
 					}
@@ -467,6 +468,18 @@ func checkApplySite(c *Ctx, s applySite) {
 			e := ast.Unparen(f.E)
 			if id, ok := e.(*ast.Ident); ok && f.Neg && flags[info.ObjectOf(id)] {
 				return true, "write flag is false"
+			}
+			// msg.Command() == "publish" (either polarity of the test) in the follower's apply function
+			if be, ok := e.(*ast.BinaryExpr); ok && c.calledOnlyFrom("followHandleCommand")[s.fn.Obj] {
+				if be.Op.String() == "==" && !f.Neg || be.Op.String() == "!=" && f.Neg {
+					for _, side := range [][2]ast.Expr{{be.X, be.Y}, {be.Y, be.X}} {
+						if isCommandCall(info, side[0]) {
+							if v, ok := constString(info, side[1]); ok && v == "publish" {
+								return true, "reviewed skip: followers do not log PUBLISH"
+							}
+						}
+					}
+				}
 			}
 			if be, ok := e.(*ast.BinaryExpr); ok {
 				if be.Op.String() == "!=" && !f.Neg || be.Op.String() == "==" && f.Neg {
@@ -764,6 +777,10 @@ func deleteResultNilEdge(info *types.Info, fg *FlowGraph, b *cfg.Block, si int, 
 	if res == nil {
 		return false
 	}
+	// through a flag: updated := old != nil … if !updated
+	if isNil, ok := fg.closeFacts(fg.identFacts(fg.edgeFacts(b, si)))[identFact{res, true}]; ok && isNil {
+		return true
+	}
 	for _, fct := range fg.edgeFacts(b, si) {
 		be, ok := ast.Unparen(fct.E).(*ast.BinaryExpr)
 		if !ok {
@@ -793,14 +810,20 @@ func ruleReplayPath(c *Ctx) {
 		c.und("anchors", 0, "loadAOF not found")
 		return
 	}
-	info := la.Info()
 	n := 0
-	ast.Inspect(la.Decl.Body, func(x ast.Node) bool {
-		if call, ok := x.(*ast.CallExpr); ok && isMethod(callee(info, call), modPath+"/internal/server", "Server", "command") {
-			n++
+	for f := range c.calledOnlyFrom("loadAOF") {
+		fi := c.FuncOf(f)
+		if fi == nil {
+			continue
 		}
-		return true
-	})
+		info := fi.Info()
+		ast.Inspect(fi.Decl.Body, func(x ast.Node) bool {
+			if call, ok := x.(*ast.CallExpr); ok && isMethod(callee(info, call), modPath+"/internal/server", "Server", "command") {
+				n++
+			}
+			return true
+		})
+	}
 	c.check(n >= 1, "loadAOF→command", la.Decl.Pos(), "loadAOF calls command statically", "loadAOF does not call command: start-up does not replay through the run-time handlers")
 	// the tolerated errors
 	fatal := c.Func("internal/server", "", "commandErrIsFatal")
